@@ -51,6 +51,7 @@ def run(ctx):
     ctx.rule("R2.poison", "no user-code point outside catch_unwind while a MutexGuard is live", floor=8)
     ctx.rule("R3.split-update", "no persistent writes both before and after an uncontained user-code point inside one pool/slab operation", floor=4)
     ctx.rule("R3.before-ok-premise", "the callees whose writes before the user initialiser are excused (R3 exception table) leave the pool self-consistent: every slab-vector change is followed in the same function by update_slab_count(slabs.len())", floor=1)
+    ctx.rule("R6.refcell-guarded-access", "the single-threaded pools reach their RefCell-protected state only through borrow()/borrow_mut() guards: an unguarded view held across user code lets a re-entrant mutation go undetected", floor=10)
     ctx.rule("R4.restore-before-destroy", "Slab::remove: tag, free-list and count writes dominate the payload destruction; nothing persistent follows it", floor=2)
     ctx.rule("R5.containment", "thread-safe insert_with*/with_iter: closure only reachable through catch_unwind; no pool guard live at resume_unwind", floor=7)
 
@@ -257,3 +258,20 @@ def run(ctx):
         "R4.pool-length": "same, at pool level",
         "R5.vacancy": "vacancy bookkeeping split around user code leaves the tracker and the slabs disagreeing after a panic",
     })
+
+    # ---------------- R6: RefCell access discipline of the Local* pools
+    ALLOWED = {"borrow", "borrow_mut", "try_borrow", "try_borrow_mut", "new", "clone", "fmt", "default"}
+    n6 = 0
+    for b in prog.bodies:
+        if "::tests" in b.key or not b.key.startswith("infinity_pool::"):
+            continue
+        for bb, t in b.calls():
+            k = callee_key(t["callee"])
+            if not k.rsplit("::", 1)[0].endswith("cell::RefCell"):
+                continue
+            m = t["callee"].get("method")
+            n6 += 1
+            ctx.ob("R6.refcell-guarded-access", f"{short(b.key)}|RefCell::{m}", m in ALLOWED, b.loc(t["span"]),
+                   f"RefCell::{m}" + ("" if m in ALLOWED else " hands out a view of the pool that the borrow flag does not protect: user code running while it is used can mutate the pool underneath"))
+    if n6 == 0:
+        ctx.missing("R6.refcell-guarded-access", "RefCell accesses in infinity_pool")
